@@ -93,7 +93,11 @@ NAT_METHODS = ["len", "iter", "is_alpha", "is_digit", "is_hexdigit", "count_char
                "clear", "keys", "values", "items", "next", "map", "filter", "collect", "derives"]
 NAT_ARGS = ["0", "1", "-1", "2", "3", "100", "0.5", "-0.0", "1 / 0", "0 / 0", "nil", '""', '"a"', '"abc"', '"abcdef"', '","', '"bc"', "[]", "[1]", "(1,)",
             "true", "0..2", "2..1", "-1..1", "1..100", "|x| { return x; }", "Num", "String"]
-NAT_OPS = ["{r}.find({a}, {n})", "{r}.find({a}, {n})", "{r}.replace({a}, {b})", "{r}.split({a})", "{r}.starts_with({a})", "{r}.ends_with({a})",
+NAT_OPS = ["{r}.to_num()", "{r}.to_num()", "{r}.to_bytes().len()", "{r}.count_chars()",
+           # methods read as values (bound, not called)
+           "{r}.iter().map", "{r}.iter().filter", "{r}.iter().collect", "{r}.iter().reduce", "{r}.len", "{r}.iter", "{r}.push", "{r}.keys", "{r}.find",
+           "({r}.iter().map)({a})", "({r}.len)()",
+           "{r}.find({a}, {n})", "{r}.find({a}, {n})", "{r}.replace({a}, {b})", "{r}.split({a})", "{r}.starts_with({a})", "{r}.ends_with({a})",
            "{r}.char_byte_index({n})", "{r}.get({a})", "{r}.insert({a}, {b})", "{r}.has_key({a})", "{r}.remove({a})", "{r}.push({a})",
            "{r}.iter().map({a}).collect()", "{r}.derives({a})", "{r}[{n}]", "{r}[{n}..{a}]", "{r}[{a}]", "{r}[{a}..{b}]", "{r} + {a}", "{r} == {a}", "{r} < {a}", "-{r}", "!{r}", '"${{{r}}}/${{{a}}}"', "String.from({r})",
            "String.from_ascii({a})", "String.from_utf8([{a}, {b}])", "String.from_code_points([{a}])", "type({r})", "({r}, {a})[{b}]"]
